@@ -19,6 +19,7 @@ import (
 	"strings"
 	"time"
 
+	"verif/engine/smt"
 	"verif/engine/symex"
 )
 
@@ -136,6 +137,7 @@ func main() {
 	if s := os.Getenv("VERIF_SEED"); s != "" {
 		seed, _ = strconv.Atoi(s)
 	}
+	smt.Seed = seed
 
 	var reg Registry
 	b, err := os.ReadFile(filepath.Join(verifDir, "harness", "harness.json"))
